@@ -57,7 +57,7 @@ def k_keyfunctions(ctx):
         shape = tuple(r.randint(1, 9) for _ in range(nd))
         chunks = tuple(r.randint(1, n) for n in shape)
         x = xp.asarray(np.zeros(shape), chunks=chunks, spec=spec)
-        kind = r.choice(["partial_reduce", "stack", "unstack", "scan"])
+        kind = r.choice(["partial_reduce", "stack", "unstack", "scan", "concat", "concat"])
         ctx.evaluations += 1
         desc = {"kind": kind, "shape": shape, "chunks": chunks}
         try:
@@ -77,6 +77,39 @@ def k_keyfunctions(ctx):
                                               f" && Nat.eqb (length {cnatlist(list(y.numblocks))}) {nd}"
                                               + "".join(f" && Nat.eqb (pr_numblocks {s} {n}) {m}" for s, n, m in zip(splits, nbs, y.numblocks)),
                                       "desc": {**desc, "out": oc}, "show": f"partial_reduce_kf {nid(x)} {cnatlist(splits)} {cnatlist(nbs)} {cnatlist(oc)}"})
+                elif kind == "concat":
+                    ax = r.randrange(nd)
+                    k = r.randint(2, 3)
+                    arrs = [x]
+                    axis_chunk = chunks[ax]
+                    for _j in range(k - 1):
+                        sh = list(shape)
+                        sh[ax] = r.randint(1, 9)
+                        ch = [r.randint(1, n) for n in sh]
+                        ch[ax] = axis_chunk if (sh[ax] > axis_chunk or r.random() < 0.5) else r.randint(1, sh[ax])
+                        if r.random() < 0.6:
+                            ch = [chunks[i] if i != ax else ch[i] for i in range(nd)]
+                        arrs.append(xp.asarray(np.zeros(tuple(sh)), chunks=tuple(min(c_, n_) for c_, n_ in zip(ch, sh)), spec=spec))
+                    y = xp.concat(arrs, axis=ax)
+                    dag = y._plan.dag
+                    op = next(iter(dag.predecessors(y.name)))
+                    pop = dag.nodes[op]["primitive_op"]
+                    kf = pop.pipeline.config.back_key_function
+                    srcs = [dag.nodes[n_]["target"] for n_ in pop.source_array_names]
+                    names = [int(n_.rsplit("-", 1)[1]) for n_ in pop.source_array_names]
+                    from cubed.utils import to_chunksize, normalize_chunks
+                    in_cs = [list(to_chunksize(normalize_chunks(t.chunks, shape=t.shape, dtype=t.dtype))) for t in srcs]
+                    offs = [0]
+                    for t in srcs:
+                        offs.append(offs[-1] + t.shape[ax])
+                    out_cs = list(y.chunksize)
+                    desc.update(axis=ax, shapes=[tuple(t.shape) for t in srcs], in_chunksizes=in_cs)
+                    from harness.framework import cnatlist2
+                    for oc in itertools.product(*[range(n) for n in y.numblocks]):
+                        fa = kf(ChunkKey(y.name, oc))
+                        got = "[" + "; ".join(f"({int(kk.name.rsplit('-', 1)[1])}, {cnatlist(kk.coords)})" for kk in fa.args[0]) + "]"
+                        cases.append({"expr": f"keys_eqb (concat_kf {cnatlist(names)} {cnatlist2(in_cs)} {cnatlist(offs)} {ax} {cnatlist(out_cs)} {cnatlist(y.shape)} {cnatlist(oc)}) {got}",
+                                      "desc": {**desc, "out": oc}, "show": f"concat_kf {cnatlist(names)} {cnatlist2(in_cs)} {cnatlist(offs)} {ax} {cnatlist(out_cs)} {cnatlist(y.shape)} {cnatlist(oc)}"})
                 elif kind == "stack":
                     k = r.randint(2, 3)
                     arrs = [x] + [xp.asarray(np.zeros(shape), chunks=chunks, spec=spec) for _ in range(k - 1)]
@@ -140,7 +173,7 @@ def k_keyfunctions(ctx):
             acc = False
         ctx.evaluations += 1
         cases.append({"expr": f"Bool.eqb (scan_accepts {nb}) {cbool(acc)}", "desc": {"scan_blocks": nb}, "show": f"scan_accepts {nb}"})
-    ctx.corr("op_key_functions", "Model.Util Model.Keys Model.OpsKF", cases, chunk=400)
+    ctx.corr("op_key_functions", "Model.Util Model.Keys Model.OpsKF Model.Selection", cases, chunk=400)
 
 
 def work(part, n):
